@@ -93,7 +93,8 @@ def _f24(prop, sub, v, case):
     # tangent branches of overlap_area_triangle_unit_circle, which
     # mis-assign area
     return (v.aid in ('exact_weight', 'weight_range', 'certain_pixel',
-                      'sum_vs_area', 'area_overlap', 'aperture_sum',
+                      'nonfinite_weight', 'bbox_not_minimal', 'sum_vs_area',
+                      'area_overlap', 'aperture_sum',
                       'aperture_sum_err', 'stat_sum', 'stat_sum_aper_area',
                       'stat_sum_err', 'cog_profile', 'rp_profile',
                       'rp_area', 'cog_area')
